@@ -221,6 +221,9 @@ def run(tier, seed):
         rep.floor("mutations after which reads were judged", len(rep.distinct), len(muts) // 3)
         rep.assumptions = ["a mutation that leaves the decoded content identical may legitimately return the pristine rows",
                            "delete-vector files and the manifest are outside this property (C04)"]
+        if tier == "thorough" and not os.environ.get("VERIF_OVERLAY"):
+            import sanitize
+            sanitize.overlay(rep, "asan", timeout=7200)
         return rep.finish()
     finally:
         rm(base)
